@@ -12,7 +12,7 @@ CLAIMED = {
    technique='Lean 4 theorems (prefix stability of the build combinator) + truncation oracle on the implementation',
    text=('Theorem (F x).take D\' = F (x.take D\') for every L0 kernel that is a build/convolution recurrence (28 theorems, any field): arithmetic, exp, log, sqrt, powers, '
          'trigonometric/hyperbolic pairs, arcsin/arccos/arctan, black/white family and its compositions; the two fold-based kernels (_eval_slow_generic for every list of derivative leaves, _dawsn for every leaf) over the reals as a '
-         'corollary of the analytic layer (their output is the jet of a function that does not depend on D). Matrix kernels, in-place forms, comparisons/branches and the reverse sweep are covered by the '
+         'corollary of the analytic layer (their output is the jet of a function that does not depend on D). The matrix kernels dot, inv, solve over any ring have the same prefix theorems; for QR, Cholesky, LU and _eigh1 two runs with inputs agreeing up to order m and the same zeroth-order leaves, both obeying the step equations tied to the code in C08, agree up to order m. In-place forms, comparisons/branches, svd/eig and the reverse sweep are covered by the '
          'implementation-level truncation oracle over all registered public operations, not by a theorem (partial).')),
  'C02': dict(
    technique='Lean 4 theorems (Cauchy product in K[[X]], ring laws of R[t]/(t^D), dtype table by case analysis) + differential correspondence',
